@@ -115,6 +115,18 @@ func Harness_C04_cleaner_recheck() {
 		b.cond.Broadcast()
 		b.mutex.Unlock()
 	}()
+	if verifNondetBool("other_waiter_on_cond") {
+		// somebody else parked on the buffer's cond (as a blocked Get is): wake-ups meant for the cleaner
+		// must not be consumed by it
+		verifDaemon("Harness_C04_cleaner_recheck$3")
+		go func() {
+			b.mutex.Lock()
+			for !verifNondetBool("never") {
+				b.cond.Wait()
+			}
+			b.mutex.Unlock()
+		}()
+	}
 	verifFinally(func() {
 		verifAssert(sawChange, "cleaner_rechecks_after_a_change_during_cooldown")
 		verifReach("quiescent")
